@@ -27,7 +27,39 @@ func (w *World) callSitesOf(fn *ssa.Function) []*ssa.Call {
 	return callSiteCache[fn]
 }
 
-func isHelper(fn *ssa.Function) bool { return inlineOK != nil && fn != nil && inlineOK(fn) }
+func isHelper(fn *ssa.Function) bool {
+	return inlineOK != nil && fn != nil && (inlineOK(fn) || calledLiteral(fn))
+}
+
+// originsAll: like origin, but a parameter of a helper (or of a function literal that is only called) with several call
+// sites resolves to the argument of every one of them.
+func originsAll(v ssa.Value) []ssa.Value {
+	w := theWorld
+	v = origin(v)
+	p, ok := v.(*ssa.Parameter)
+	if !ok || w == nil || !isHelper(p.Parent()) {
+		return []ssa.Value{v}
+	}
+	fn := p.Parent()
+	idx := -1
+	for k, q := range fn.Params {
+		if q == p {
+			idx = k
+		}
+	}
+	sites := w.callSitesOf(fn)
+	if idx < 0 || len(sites) == 0 {
+		return []ssa.Value{v}
+	}
+	var out []ssa.Value
+	for _, cs := range sites {
+		if idx >= len(cs.Call.Args) {
+			return []ssa.Value{v}
+		}
+		out = append(out, originsAll(cs.Call.Args[idx])...)
+	}
+	return out
+}
 
 // origin resolves v through helpers (see above). It never fails: an unresolvable value is returned as is.
 func origin(v ssa.Value) ssa.Value { return originIn(nil, v) }
@@ -197,19 +229,47 @@ func isParamOfH(v ssa.Value, fn *ssa.Function) bool {
 
 // ownerKey: the symbolic key of fn, or — for a helper the reference tree does not have — of the
 // known function that (uniquely, possibly through further helpers) calls it.
-func (w *World) ownerKey(f *ssa.Function) string {
-	for i := 0; i < 4 && isHelper(f); i++ {
-		sites := w.callSitesOf(f)
-		if len(sites) != 1 {
-			break
-		}
-		f = sites[0].Parent()
+func (w *World) ownerKey(f *ssa.Function) string { return w.funcKey(w.ownerFn(f)) }
+
+// calledLiteral: f is a function literal that its enclosing function only calls (never starts as a goroutine, defers
+// or stores): it runs on behalf of that function.
+func calledLiteral(f *ssa.Function) bool {
+	if f == nil || f.Parent() == nil {
+		return false
 	}
-	return w.funcKey(f)
+	used := false
+	ok := true
+	allInstrs(f.Parent(), func(in ssa.Instruction) {
+		mc, isMC := in.(*ssa.MakeClosure)
+		if !isMC || mc.Fn != ssa.Value(f) {
+			return
+		}
+		for _, rf := range *mc.Referrers() {
+			switch x := rf.(type) {
+			case *ssa.Call:
+				if x.Call.Value == ssa.Value(mc) {
+					used = true
+					continue
+				}
+				ok = false
+			case *ssa.DebugRef:
+			default:
+				ok = false
+			}
+		}
+	})
+	return used && ok
 }
 
 func (w *World) ownerFn(f *ssa.Function) *ssa.Function {
-	for i := 0; i < 4 && isHelper(f); i++ {
+	for i := 0; i < 6; i++ {
+		if calledLiteral(f) {
+			f = f.Parent()
+			continue
+		}
+		if !isHelper(f) {
+			break
+		}
 		sites := w.callSitesOf(f)
 		if len(sites) != 1 {
 			break
@@ -252,6 +312,10 @@ func (w *World) owners(f *ssa.Function) []*ssa.Function {
 			return
 		}
 		seen[g] = true
+		if calledLiteral(g) {
+			visit(g.Parent(), depth+1)
+			return
+		}
 		if !isHelper(g) || depth > 4 {
 			out = append(out, g)
 			return
